@@ -14,6 +14,13 @@ import (
 const (
 	packetWindowMicroseconds  = 500_000
 	maxMissingSequenceNumbers = 0x7FFE
+
+	// maxDeltaBytes bounds the recv delta bytes of one feedback packet so that the whole
+	// packet stays below 64 KiB: rtcp.TransportLayerCC measures itself in a uint16 and cannot
+	// marshal anything larger. A feedback covers at most maxNumberOfPackets statuses and every
+	// packet status chunk but the last two covers at least 7 of them, so header and chunks
+	// need less than 10 KiB.
+	maxDeltaBytes = 0xC000
 )
 
 // Recorder records incoming RTP packets and their delays and creates
@@ -248,6 +255,10 @@ func (f *feedback) addReceived(sequenceNumber uint16, timestampUS int64) bool {
 	}
 	// delta doesn't fit into 16 bit, need to create new packet
 	if delta250US < math.MinInt16 || delta250US > math.MaxInt16 {
+		return false
+	}
+	// the packet would outgrow what a 16 bit length can describe, need to create new packet
+	if f.len >= maxDeltaBytes {
 		return false
 	}
 	deltaUSRounded := delta250US * rtcp.TypeTCCDeltaScaleFactor
